@@ -56,6 +56,13 @@ fn main() {
             write_lines(&format!("{}/pure.impl", out), &resp);
             println!("pure requests={}", reqs.len());
         }
+        "uset" => {
+            let reqs = pure::gen_uset_requests(seed, n);
+            let resp: Vec<String> = reqs.iter().map(|l| pure::respond(l)).collect();
+            write_lines(&format!("{}/uset.in", out), &reqs);
+            write_lines(&format!("{}/uset.impl", out), &resp);
+            println!("uset requests={}", reqs.len());
+        }
         "hdr" => {
             let mut rng = util::Rng::derive(seed, 14, 0);
             let mut reqs = Vec::new();
